@@ -415,6 +415,10 @@ func genFaults(r *rand.Rand, st *world.State, g string) []world.Fault {
 		if len(ids) > 0 {
 			n = ids[r.Intn(len(ids))]
 		}
+		if r.Intn(12) == 0 { // the process dies just before its k-th write of the scan
+			fs = append(fs, world.Fault{Op: "crash", T: fmt.Sprintf("#%d", 1+r.Intn(4))})
+			continue
+		}
 		if gs.Cfg.Fleet && r.Intn(2) == 0 {
 			switch r.Intn(5) {
 			case 0:
@@ -772,10 +776,23 @@ func enumFaults(w *world.World, seed int64, src string, pairs bool) []interface{
 		l := c.Scan(fs)
 		l.Src, l.ID = src+tag, 0
 		out = append(out, l)
-		// after a transient failure the next scan proceeds normally
+		// after a transient failure (or a crash followed by a restart) the next scan proceeds normally
+		if !c.Alive {
+			c.Restart()
+		}
 		l2 := c.Scan(nil)
 		l2.Src, l2.ID = src+tag+"+next", 1
 		out = append(out, l2)
+	}
+	nw := 0
+	for _, c := range base.Calls {
+		switch c.Op {
+		case "update", "delete", "terminate", "set_desired", "create_fleet", "attach", "terminate_instances":
+			nw++
+		}
+	}
+	for k := 1; k <= nw && k <= 8; k++ { // every crash point of the scan
+		run([]world.Fault{{Op: "crash", T: fmt.Sprintf("#%d", k)}}, fmt.Sprintf(":crash%d", k))
 	}
 	for i, f := range fl {
 		run([]world.Fault{f}, fmt.Sprintf(":%d", i))
